@@ -1233,7 +1233,11 @@ func c10RecursionExcludesTextM(c *Ctx, rule string) {
 					return
 				}
 				seen[v] = true
+				dead := deadPhiEdges(ph, at)
 				for ei, e := range ph.Edges {
+					if dead[ei] {
+						continue // an outcome of a folded helper that is tested away before this point
+					}
 					walk(e, ph.Block().Preds[ei], ph.Block())
 				}
 				return
